@@ -720,20 +720,69 @@ def wiring():
     rows = []
     for rel, cls in WIRING:
         mod = Module(rel)
+        # package-internal functions imported by name (e.g. `from .halofit import halofit as _hfit`): alias -> (name, parameter names)
+        funcs = {}
+        for imp in mod.tree.body:
+            if isinstance(imp, ast.ImportFrom) and imp.level >= 1 and imp.module:
+                base = os.path.dirname(rel)
+                for _ in range(imp.level - 1):
+                    base = os.path.dirname(base)
+                path = os.path.join(SRC, base, imp.module.replace(".", "/") + ".py")
+                if not os.path.exists(path):
+                    continue
+                defs = {n.name: n for n in ast.parse(open(path).read()).body if isinstance(n, ast.FunctionDef)}
+                for a in imp.names:
+                    if a.name in defs:
+                        funcs[a.asname or a.name] = (a.name, [x.arg for x in defs[a.name].args.args])
         for fn in mod.classes[cls].body:
-            if not (isinstance(fn, ast.FunctionDef) and any(ast.unparse(d).split(".")[-1] == "cached_quantity" for d in fn.decorator_list)):
+            if not isinstance(fn, ast.FunctionDef):
+                continue
+            cached = any(ast.unparse(d).split(".")[-1] == "cached_quantity" for d in fn.decorator_list)
+            if not cached and fn.decorator_list:
+                continue            # parameters, properties, staticmethods: not part of the data flow between quantities
+            if not cached and fn.name in ("__init__", "validate", "update", "clone"):
                 continue
             k = 0
             for n in ast.walk(fn):
-                if not (isinstance(n, ast.Call) and isinstance(n.func, ast.Attribute)):
+                if not isinstance(n, ast.Call):
                     continue
                 callee = ast.unparse(n.func)
+                if isinstance(n.func, ast.Attribute) and isinstance(n.func.value, ast.Name) and n.func.value.id != "self" and n.func.attr in ("update", "clone") \
+                        and not n.args:
+                    # a derived framework object built inside a helper (e.g. the high-mass extension of `_gtm`): which parameters it is given
+                    rows.append((f"{cls}.{fn.name}" + (f"#{k}" if k else ""), [("callee", "<derived object>." + n.func.attr)] + sorted(((kw.arg or "**"), ast.unparse(kw.value)) for kw in n.keywords)))
+                    k += 1
+                    continue
+                if isinstance(n.func, ast.Name) and n.func.id in funcs:
+                    # arguments bound to the callee's parameter names, so positional and keyword spellings give the same row
+                    name, params = funcs[n.func.id]
+                    bound = [(params[i] if i < len(params) else f"#{i}", ast.unparse(a)) for i, a in enumerate(n.args)]
+                    bound += [((kw.arg or "**"), ast.unparse(kw.value)) for kw in n.keywords]
+                    rows.append((f"{cls}.{fn.name}" + (f"#{k}" if k else ""), [("callee", name)] + sorted(bound)))
+                    k += 1
+                    continue
+                if not isinstance(n.func, ast.Attribute):
+                    continue
                 if re.fullmatch(r"self\.[A-Za-z_]+_model(\.clone)?", callee):
                     args = [(f"#{i}", ast.unparse(a)) for i, a in enumerate(n.args)]
                     args += sorted(((kw.arg or "**"), ast.unparse(kw.value)) for kw in n.keywords)
                     rows.append((f"{cls}.{fn.name}" + (f"#{k}" if k else ""), [("callee", callee[5:])] + args))
                     k += 1
-    rows.sort()
+    # stable site names: `Class.method`, or `Class.method/callee` when a method makes several recorded calls (independent of the
+    # order of the statements)
+    import collections
+    base = collections.Counter(re.sub(r"#\d+$", "", site) for site, _ in rows)
+    named, seen = [], collections.Counter()
+    for site, args in rows:
+        b = re.sub(r"#\d+$", "", site)
+        if base[b] > 1:
+            nm = f"{b}/{dict(args)['callee']}"
+            seen[nm] += 1
+            nm = nm if seen[nm] == 1 else f"{nm}#{seen[nm]}"
+        else:
+            nm = b
+        named.append((nm, args))
+    rows = sorted(named)
     L = ["def wiring : List (String × List (String × String)) := ["]
     L.append(",\n".join("  (" + lean_str(site) + ", [" + ", ".join(f"({lean_str(a)}, {lean_str(b)})" for a, b in args) + "])" for site, args in rows))
     L.append("]")
